@@ -26,6 +26,7 @@ import PyYetiVerif.Props.C06c
 #print axioms PyYetiVerif.C06.trimRef_spec
 #print axioms PyYetiVerif.C06.rbdispchk_recovers_coords
 #print axioms PyYetiVerif.C06.rbdispchk_recovers_grid
+#print axioms PyYetiVerif.C06.coordchk_coords_local
 #print axioms PyYetiVerif.C06.net_force_is_resultant
 #print axioms PyYetiVerif.C06.net_drm_is_resultant
 #print axioms PyYetiVerif.C06.net_force_is_resultant_local
